@@ -203,6 +203,38 @@ func cmdCheck(args []string) int {
 	e.scopeKinds = scopeKinds
 	sort.Slice(fns, func(i, j int) bool { return fns[i].String() < fns[j].String() })
 
+	// ---- callers of marked library functions must be under contract for this property
+	for name, s := range e.specs.funcs {
+		if !hasTag(s.CallersNeed, *prop) {
+			continue
+		}
+		for _, fn := range e.funcsByName {
+			root := fn
+			for root.Parent() != nil {
+				root = root.Parent()
+			}
+			if root.Pkg == nil || !inModule(root.Pkg.Pkg) || fn.Synthetic != "" {
+				continue
+			}
+			calls := false
+			for _, b := range fn.Blocks {
+				for _, in := range b.Instrs {
+					if c, ok := in.(ssa.CallInstruction); ok {
+						if sc := c.Common().StaticCallee(); sc != nil && sc.String() == name {
+							calls = true
+						}
+					}
+				}
+			}
+			if !calls {
+				continue
+			}
+			if sp := e.specFor(fn); sp == nil || !specMentions(sp, *prop) {
+				e.stale = append(e.stale, fmt.Sprintf("%s calls %s but has no %s contract (every function that builds such a request must be under contract)", fnShortName(fn), shortCallee(name), *prop))
+			}
+		}
+	}
+
 	// ---- translate (worklist: callees whose contracts were used are verified too)
 	e.curProp = *prop
 	var results []*FnCtx
@@ -703,8 +735,10 @@ func (e *Engine) restrictedWriters(p string) []*ssa.Function {
 				m[n] = true
 			}
 		}
-		if hasTag(ts.FinalTags, p) {
-			add(ts.Final)
+		for _, fd := range ts.FinalDecls {
+			if hasTag(fd.Tags, p) {
+				add(fd.Fields)
+			}
 		}
 		for _, pd := range ts.Private {
 			if hasTag(pd.Tags, p) {
